@@ -205,6 +205,24 @@ PROPS = {
         "level_note": VERUS_TRUST + "shims (assumed std contracts) for rsplit_once(char), rsplit_once(\"nb\"), parse::<i64>, String::from, "
                       "Option::or, rfind(char); Summary::pkgbase()/pkgversion() are proved (unit summary) to return base_of/version_of of PKGNAME exactly when both parts are non-empty.",
     },
+    "C13": {
+        "units": ["digest"],
+        "design_ref": "DESIGN.md section 8 / C13",
+        "replay": "digest",
+        "level_text": "Proof on the real functions MODULO the external cores: with each RustCrypto hasher modelled as an accumulator whose "
+                      "finalize() is the (uninterpreted) standard digest of the bytes fed to it, hash_file, hash_patch and hash_str are proved, for all "
+                      "six algorithms, to dispatch to the core named after the algorithm, to feed exactly the reader's bytes in order (hash_file, "
+                      "hash_str: the same digest through both entry points) or exactly the statement's filtered text (hash_patch: every line "
+                      "containing '$NetBSD' removed, every kept line newline-terminated, the final unterminated line counting as terminated), to "
+                      "return lower-case hex, two digits per byte in order, and to return Err - never a digest - when the reader reports a hard "
+                      "error; Digest::from_str / Display are proved against the name table. NOT proved (assumed, validated only by the bounded "
+                      "cross-check of the thorough tier against python hashlib and embedded known answers): that the RustCrypto cores compute the "
+                      "standard algorithms, chunking-independently, and that io::copy / BufRead::split deliver the same bytes under every read schedule.",
+        "level_note": VERUS_TRUST + "external crates blake2/md-5/ripemd/sha1/sha2/digest as opaque stand-ins (lib/digest_cores.rs: only 'type X implements algorithm X' is stated); "
+                      "std_digest and stream_of uninterpreted; shims: io::copy(reader, hasher), BufReader::new(r).split(b'\\n'), windows(7).any(== b\"$NetBSD\"), "
+                      "format!(\"{b:02x}\") (checked for all 256 byte values at run time); Iterator::fold rewritten to its defining loop (D2.fold_string_to_loop); "
+                      "str::to_lowercase uninterpreted, equal to ASCII lower-casing on ASCII text.",
+    },
     "C16": {
         "units": ["scanindex"],
         "design_ref": "DESIGN.md section 8 / C16",
@@ -221,22 +239,22 @@ PROPS = {
                       "impl Deserialize for ScanIndex and str_to_index (serde generics, macro_rules accessors) watched, not verified: index_of(block) is uninterpreted.",
     },
     "C17": {
-        "units": ["dewey", "pkgname", "pattern", "plist", "summary", "distinfo", "pkgdb", "pkgpath", "scanindex"],
+        "units": ["dewey", "pkgname", "pattern", "plist", "summary", "distinfo", "pkgdb", "pkgpath", "scanindex", "digest"],
         "always_devs": ["letter_value_is_ascii_code"],
         "design_ref": "DESIGN.md section 8 / C17",
         "replay": "all",
         "all_fns": True,
         "kinds": "execution-hazards",
-        "level_text": "Unbounded proof, for every function under contract in the nine units, of the obligations Verus generates for executable "
+        "level_text": "Unbounded proof, for every function under contract in the ten units, of the obligations Verus generates for executable "
                       "code: every callee precondition at an exec call site (Option/Result::unwrap, str/slice indexing and slicing on char "
                       "boundaries, Vec indexing), absence of arithmetic overflow/underflow and division by zero, unreachability of panic!/todo!/"
                       "unreachable!, and termination (decreases) of every loop and recursion. Only failures of these obligation kinds in exec code "
                       "are C17 violations (a failed functional postcondition is another property's violation). Entry points not under contract are "
                       "listed in the evidence (coverage.not_under_contract) and are covered only by the bounded panic/hang fuzzer of the thorough tier.",
-        "level_note": VERUS_TRUST + "all assumed std contracts and world functions of the nine units (their shims are assumed not to panic when their stated "
+        "level_note": VERUS_TRUST + "all assumed std contracts and world functions of the ten units (their shims are assumed not to panic when their stated "
                       "preconditions hold); 'promptly' is proved as termination only, not as a time bound; allocation failure and stack depth are outside the model "
                       "(alternate_match recursion depth is bounded by the number of '{' in the pattern).",
-        "not_under_contract": ["impl Deserialize for ScanIndex (serde glue, watched)", "Digest::hash_file/hash_patch/hash_str and the RustCrypto cores (watched, C13)",
+        "not_under_contract": ["impl Deserialize for ScanIndex (serde glue, watched)", "the RustCrypto cores behind Digest::hash_* (external crates; modelled, C13)",
                                "Distinfo::calculate_size/calculate_checksum and verify_* beyond the contracts of unit distinfo that call into the file system",
                                "PkgDB::open", "derive-generated Debug/Clone/PartialEq/Hash/Ord impls", "serde Serialize/Deserialize derives",
                                "Summary Display/FromStr are under contract; SummaryStream::flush"],
@@ -274,9 +292,6 @@ PROPS = {
 }
 
 NOT_APPLICABLE = {
-    "C13": "Equality with the standard BLAKE2s/MD5/RMD160/SHA digests for every input and every read schedule is a statement "
-           "about the RustCrypto cores and std::io (external crates, SIMD/intrinsics; not importable into single-file Verus, "
-           "beyond Kani); the in-repo residue is generic glue over those traits with nothing left to prove under assumed contracts.",
 }
 for _p in ["C%02d" % i for i in range(1, 21)]:
     if _p not in PROPS and _p not in NOT_APPLICABLE:
